@@ -2,7 +2,9 @@
   C11 — lifetimes of runtimes, packages, function handles and the resources
   they keep alive (src/codegen/mod.rs, src/pipeline.rs, src/runtime/mod.rs).
 
-  Objects:   Runtime r, Package k, Handle (positional), Module k (= the
+  Objects:   Runtime r, Package k, Handle (positional; a handle may have been
+             turned into an `impl Fn` closure by `into_func`, or be wrapped in a
+             `TestCase` handed out by `get_tests`), Module k (= the
              `Arc<ModuleData>` of compilation k, explicit strong count).
   Resources: Code k (JIT memory), ScriptConst k c (a `RotoConstant`: heap slot +
              JIT-compiled drop function), RegConst r (the `Arc` behind a
@@ -14,7 +16,9 @@
   the field order of `ModuleData` (Rust drops fields in declaration order),
   whether a handle owns a strong count (`TypedFunc._module` filled with
   `self.inner.clone()`), which registered items are cloned into the module,
-  and which `Drop` impls call `free_memory`.
+  which `Drop` impls call `free_memory`, what the closure made by
+  `TypedFunc::into_func` captures, and who owns each kind of out-of-line data
+  the emitted code refers to by address (`Holder`).
 
   Use-after-free is never totalised away: a script constant's drop function
   that runs after `Code k` was freed, a call into freed code/constants and a
@@ -23,12 +27,14 @@
 -/
 namespace RotoV.Lifetime
 
-/-- the four fields of `ModuleData`, classified by their type -/
+/-- the fields of `ModuleData`, classified by their type -/
 inductive Field
   | constants      -- HashMap<ResolvedName, ConstantValue>   (clones of registered constants)
   | rotoConstants  -- HashMap<ResolvedName, RotoConstant>    (script constants, drop fn lives in the JIT code)
   | registeredFns  -- Vec<Arc<Box<dyn Any>>>                 (clones of registered closures)
   | jit            -- JITModuleWrapper                       (its Drop frees the code)
+  | plain          -- any other container of plain data (Vec / Box / HashSet / String …): dropping it runs no
+                   -- script code and touches nothing else, so its place in the order does not matter
   deriving DecidableEq, Repr, Inhabited
 
 /-- where `free_memory` is called -/
@@ -38,6 +44,23 @@ inductive FreeSite
   | packageDrop     -- impl Drop for Package / Module<Ctx>
   | handleDrop      -- impl Drop for TypedFunc
   deriving DecidableEq, Repr
+
+/-- who owns, after `ModuleBuilder::finalize`, a piece of out-of-line data that the
+    emitted code refers to by address (string-literal bytes, aggregate
+    initialisers, interned tables, …) -/
+inductive Holder
+  | jit         -- a data object inside the JIT module: lives and dies with Code k
+  | moduleData  -- a field of `ModuleData` (behind the `Arc` that packages and handles share)
+  | package     -- a field of `Module<Ctx>` / `Package`: dies with the package object
+  | builder     -- stays in the `ModuleBuilder`: dies when compilation returns
+  deriving DecidableEq, Repr
+
+/-- data with this holder is kept alive by every handle -/
+def Holder.heldByHandles : Holder → Bool
+  | .jit => true
+  | .moduleData => true
+  | .package => false
+  | .builder => false
 
 /-- declaration-level facts of the implementation (generated) -/
 structure Facts where
@@ -54,6 +77,17 @@ structure Facts where
   fnsCloned : Bool
   /-- the impls whose `drop` calls `free_memory` -/
   freeSites : List FreeSite
+  /-- the closure returned by `TypedFunc::into_func` captures the whole handle
+      (or at least its `SharedModuleData` field); otherwise Rust's disjoint
+      closure capture leaves that field behind and it is dropped when
+      `into_func` returns -/
+  closureKeepsArc : Bool
+  /-- a `TestCase` (what `Package::get_tests` hands out) stores the `TypedFunc`
+      that `Module::get_function` returned, and runs the test through it -/
+  testHoldsHandle : Bool
+  /-- the holder of every kind of out-of-line data the emitted code refers to by
+      address, other than constants and registered closures -/
+  dataHolders : List Holder
   deriving Repr
 
 inductive Res
@@ -82,6 +116,8 @@ structure ModInfo where
   keepClos : Bool := false   -- the module holds a clone of Closure rt
   useConst : Bool := false   -- `main` reads RegConst rt
   useClos : Bool := false    -- `main` calls Closure rt
+  useData : Bool := false    -- the result of `main` depends on out-of-line data emitted with the code
+  dataHolders : List Holder := []  -- where that data lives (copied from the facts at compile time)
   value : Nat := 0       -- what `main()` returns
   deriving Repr, Inhabited
 
@@ -89,6 +125,7 @@ structure Handle where
   k : Nat
   holds : Bool       -- owns one strong count of Module k
   expect : CallRes   -- what a call returned when the handle was created
+  isFn : Bool := false  -- a closure made by `into_func`, or a `TestCase`: wraps a handle, cannot be cloned
   deriving Repr
 
 def upd {α : Type} (f : Nat → α) (k : Nat) (v : α) : Nat → α :=
@@ -119,9 +156,11 @@ inductive Op
   | buildRuntime (r : Nat)
   | registerConst (r : Nat)
   | registerClosure (r : Nat)
-  | compile (r k nconst : Nat) (useConst useClos : Bool) (value : Nat)
+  | compile (r k nconst : Nat) (useConst useClos useData : Bool) (value : Nat)
   | getHandle (k : Nat)
+  | getTest (k : Nat)
   | cloneHandle (i : Nat)
+  | intoFunc (i : Nat)
   | call (i : Nat)
   | dropHandle (i : Nat)
   | dropPackage (k : Nat)
@@ -163,6 +202,7 @@ def dropField (F : Facts) (k : Nat) : Field → St → St
   | .rotoConstants, s => dropScriptConsts k (s.info k).nconst s
   | .registeredFns, s => if (s.info k).keepClos then decClos (s.info k).rt s else s
   | .jit, s => if FreeSite.wrapperDrop ∈ F.freeSites then freeCode k s else s
+  | .plain, s => s
 
 def dropFields (F : Facts) (k : Nat) : List Field → St → St
   | [], s => s
@@ -184,14 +224,26 @@ def decModule (F : Facts) (k : Nat) (s : St) : St :=
 
 def unreleased (s : St) (x : Res) : Bool := !(s.released.contains x)
 
+/-- is data of module k with holder `h` still there -/
+def holderAlive (s : St) (k : Nat) : Holder → Bool
+  | .jit => s.mapped k
+  | .moduleData => s.alive.contains k
+  | .package => s.pkgs.contains k
+  | .builder => false
+
+/-- all out-of-line data the code of module k refers to is still there -/
+def dataAlive (s : St) (k : Nat) : Bool := (s.info k).dataHolders.all (holderAlive s k)
+
 /-- what `main()` of version k does in state s: it runs Code k, reads the
-    script constants, and (if the script does) RegConst / Closure of its runtime -/
+    script constants, and (if the script does) RegConst / Closure of its runtime
+    and the out-of-line data emitted with the code -/
 def callRes (s : St) (k : Nat) : CallRes :=
   let m := s.info k
   if s.mapped k
       && (List.range m.nconst).all (fun c => unreleased s (.scriptConst k c))
       && (!m.useConst || unreleased s (.regConst m.rt))
       && (!m.useClos || unreleased s (.closure m.rt))
+      && (!m.useData || dataAlive s k)
   then .ok m.value else .uaf
 
 /-! ### operations -/
@@ -200,11 +252,13 @@ def valid (s : St) : Op → Bool
   | .buildRuntime r => !(s.built.contains r)
   | .registerConst r => s.rts.contains r && !(s.constEver.contains r)
   | .registerClosure r => s.rts.contains r && !(s.closEver.contains r)
-  | .compile r k _ useConst useClos _ =>
+  | .compile r k _ useConst useClos _ _ =>
     s.rts.contains r && !(s.compiled.contains k)
       && (!useConst || s.rtConst.contains r) && (!useClos || s.rtClos.contains r)
   | .getHandle k => s.pkgs.contains k
-  | .cloneHandle i => i < s.hs.length
+  | .getTest k => s.pkgs.contains k
+  | .cloneHandle i => (s.hs[i]?).any (fun h => !h.isFn)
+  | .intoFunc i => (s.hs[i]?).any (fun h => !h.isFn)
   | .call i => i < s.hs.length
   | .dropHandle i => i < s.hs.length
   | .dropPackage k => s.pkgs.contains k
@@ -216,13 +270,14 @@ def step (F : Facts) (s : St) : Op → St
     { s with rtConst := r :: s.rtConst, constEver := r :: s.constEver, constRc := upd s.constRc r 1 }
   | .registerClosure r =>
     { s with rtClos := r :: s.rtClos, closEver := r :: s.closEver, closRc := upd s.closRc r 1 }
-  | .compile r k nconst useConst useClos value =>
+  | .compile r k nconst useConst useClos useData value =>
     -- every registered constant is cloned, only referenced functions are
     let keepConst := F.constsCloned && s.rtConst.contains r
     let keepClos := F.fnsCloned && useClos
     { s with
       compiled := k :: s.compiled
-      info := upd s.info k { rt := r, nconst, keepConst, keepClos, useConst, useClos, value }
+      info := upd s.info k { rt := r, nconst, keepConst, keepClos, useConst, useClos, useData,
+                             dataHolders := F.dataHolders, value }
       strong := upd s.strong k 1
       alive := k :: s.alive
       mapped := upd s.mapped k true
@@ -234,6 +289,12 @@ def step (F : Facts) (s : St) : Op → St
     { s with
       hs := s.hs ++ [h]
       strong := if h.holds then upd s.strong k (s.strong k + 1) else s.strong }
+  | .getTest k =>
+    -- `Package::get_tests`: a `TestCase` wraps the handle `get_function` made for the test function
+    let h : Handle := { k, holds := F.handleHoldsArc && F.testHoldsHandle, expect := callRes s k, isFn := true }
+    { s with
+      hs := s.hs ++ [h]
+      strong := if h.holds then upd s.strong k (s.strong k + 1) else s.strong }
   | .cloneHandle i =>
     match s.hs[i]? with
     | none => s
@@ -241,6 +302,17 @@ def step (F : Facts) (s : St) : Op → St
       { s with
         hs := s.hs ++ [h]
         strong := if h.holds then upd s.strong h.k (s.strong h.k + 1) else s.strong }
+  | .intoFunc i =>
+    -- `move |args| self.call(args)`: the closure owns the whole handle.  If it only
+    -- captured `self.func` / `self.return_by_ref`, the `_module` field would be
+    -- dropped at the end of `into_func`.
+    match s.hs[i]? with
+    | none => s
+    | some h =>
+      if F.closureKeepsArc then { s with hs := s.hs.set i { h with isFn := true } }
+      else
+        let s := { s with hs := s.hs.set i { h with isFn := true, holds := false } }
+        if h.holds then decModule F h.k s else s
   | .call i =>
     match s.hs[i]? with
     | none => s
